@@ -66,6 +66,23 @@ def run(ctx):
             if why:
                 ctx.violation("migration_matrices: " + why, {"document": doc},
                               python=py_repro(doc, "g.migration_matrices()"))
+            # the graphs DERIVED from a graph whose matrices have been computed are valid graphs too: the generations
+            # view and a renamed copy (a rotation of the names) must satisfy the same relation with their own times / order
+            derived = [("in_generations()", lambda: g.in_generations())]
+            if len(g.demes) > 1:
+                names = [d.name for d in g.demes]
+                derived.append((f"rename_demes({dict(zip(names, names[1:] + names[:1]))!r})",
+                                lambda: g.rename_demes(dict(zip(names, names[1:] + names[:1])))))
+            for expr, make in derived:
+                try:
+                    h = make()
+                    mm2, ends2 = h.migration_matrices()
+                    why = pointwise_ok(h, mm2, ends2)
+                except Exception as e:  # noqa: BLE001
+                    why = f"raises {type(e).__name__}: {str(e)[:80]}"
+                if why:
+                    ctx.violation(f"migration_matrices of g.{expr.split('(')[0]}(...): " + why, {"document": doc, "derived_by": expr},
+                                  python=py_repro(doc, f"g.{expr}.migration_matrices()"))
 
 
 def replay(ctx, payload):
